@@ -566,6 +566,17 @@ def is_initial_residual(sv, V, r, at):
     if V == r:
         return True
     ctx = sv.ctx
+    if copy_source(ctx, V, 0, at) == copy_source(ctx, r, 0, at):
+        return True          # plain moves / clones between the helper's residual and the solver's
+
+    def _val(t):
+        t = copy_source(ctx, t, 0, at)
+        if t[0] == "var":
+            d_ = ctx.def_term(t)
+            return d_ if d_ is not None else t
+        return t
+    if _val(V) == _val(r) and _val(V)[0] != "var":
+        return True          # the same expression b - A x, named on one side and inlined on the other
     into = [c for c in walk(sv.fn["body"]) if c.get("k") == "MethodCall" and callee_path(c) == IDP and _pos(c) < _pos(at)
             and not any(a is sv.main for a in ancestors(c)) and _lval(ctx, c["args"][1]) == V]
     if not into:
@@ -646,7 +657,7 @@ def rule_normaliser(rep, sv, name):
     rep.add("normaliser/%s" % name, rule, ok and n_norm >= 1, defs[0][0] if defs else fn["body"], "; ".join(det))
 
 
-def copy_source(ctx, v, depth=0):
+def copy_source(ctx, v, depth=0, at=None):
     """Follow `let w = v;` / `w = v;` copies (w defined exactly once, by a plain local) back to the variable that carries
     the definitions: a helper returning (r, normb) leaves the caller's normb a copy of the helper's."""
     if v[0] != "var" or depth > 4:
@@ -654,7 +665,7 @@ def copy_source(ctx, v, depth=0):
     b = ctx.binds.get(v[1])
     if b is None or b.kind != "let" or b.proj:
         return v
-    asg = [a for a in ctx.assigns.get(v[1], [])]
+    asg = [a for a in ctx.assigns.get(v[1], []) if at is None or _pos(a) < _pos(at)]      # only what has happened before `at`
     srcs = []
     if b.init is not None:
         srcs.append(strip(b.init))
@@ -667,7 +678,7 @@ def copy_source(ctx, v, depth=0):
     if s0.get("k") == "Local":
         sb = ctx.binds.get(s0["v"])
         if sb is not None and sb.kind == "let":
-            return copy_source(ctx, ("var", s0["v"]), depth + 1)
+            return copy_source(ctx, ("var", s0["v"]), depth + 1, at)
     return v
 
 
